@@ -90,7 +90,26 @@ def rand_small_mem(rng):
     return {rng.choice((A, B, D, R)): cell.zeroExtend(W)}
 
 
-def rand_assignblk(rng, allow_mem=True):
+def rand_stack_blk(rng):
+    """one parallel block that assigns a register AND accesses memory through the OLD value of that register (push / pop / indexed
+    store with post-increment): the address must be read before the assignment of the same block takes effect"""
+    k = rng.random()
+    v = rng.choice((A, B, D, R))
+    if k < 0.35:
+        return {SP: ExprOp("+", SP, I(0xFFFFFFFC)), ExprMem(ExprOp("+", SP, I(0xFFFFFFFC)), W): v}
+    if k < 0.60:
+        return {v: ExprMem(SP, W), SP: ExprOp("+", SP, I(4))}
+    if k < 0.80:
+        # indexed store with post-increment of the index
+        return {v: ExprOp("+", v, I(4)), ExprMem(ExprOp("+", I(0x1000), ExprOp("&", v, I(0xC))), W): rng.choice((A, B, D, R))}
+    # load through a register that the same block overwrites
+    o = rng.choice([x for x in (A, B, D, R) if x is not v])
+    return {o: ExprMem(ExprOp("+", I(0x1000), ExprOp("&", v, I(0xC))), W), v: ExprOp("+", o, I(1))}
+
+
+def rand_assignblk(rng, allow_mem=True, stack=False):
+    if stack and rng.random() < 0.2:
+        return rand_stack_blk(rng)
     k = rng.random()
     if allow_mem and rng.random() < 0.18:
         return rand_small_mem(rng)
@@ -111,7 +130,7 @@ def rand_assignblk(rng, allow_mem=True):
     return out
 
 
-def gen_program(rng, with_calls=False):
+def gen_program(rng, with_calls=False, stack=False):
     """-> list of (list of assignment dicts, destination) per block; destination: ('j', i) | ('c', cond, i, j) | ('end',).
     Block 0 is the head.  Loops are bounded by the counter c (never assigned by the body)."""
     blocks = []
@@ -122,7 +141,7 @@ def gen_program(rng, with_calls=False):
 
     def body(i, n=None):
         for _ in range(rng.choice((1, 1, 2, 3)) if n is None else n):
-            blocks[i][0].append(rand_assignblk(rng))
+            blocks[i][0].append(rand_assignblk(rng, stack=stack))
 
     cur = new_block()
     body(cur)
